@@ -18,6 +18,7 @@ import (
 	"os/exec"
 	"path/filepath"
 	"strconv"
+	"sync/atomic"
 	"time"
 
 	"github.com/itchyny/gojq"
@@ -84,8 +85,9 @@ func (r *c12Runner) exec(dir string, args, env []string, stdin []byte) c12M {
 	cmd.Dir = dir
 	cmd.Env = append([]string{"HOME=/nonexistent", "PATH=/usr/bin:/bin"}, env...)
 	cmd.Stdin = bytes.NewReader(stdin)
-	var so, se bytes.Buffer
-	cmd.Stdout, cmd.Stderr = &so, &se
+	var se bytes.Buffer
+	so := &capBuffer{max: 1 << 20}
+	cmd.Stdout, cmd.Stderr = so, &se
 	err := cmd.Run()
 	status := 0
 	if err != nil {
@@ -102,8 +104,23 @@ func (r *c12Runner) exec(dir string, args, env []string, stdin []byte) c12M {
 	if len(e) > 600 {
 		e = e[:600]
 	}
+	if so.total > so.max || c12Recorded.Add(int64(so.total)) > c12RecordBudget {
+		// far more than any case of the check can legitimately print: keep the head, record the length (the comparison with the specification fails on it)
+		head := so.String()
+		if len(head) > 16<<10 {
+			head = head[:16<<10]
+		}
+		return c12M{"status": status, "out": c12Bytes(head), "outlen": so.total, "overflow": true, "err": e}
+	}
 	return c12M{"status": status, "out": c12Bytes(so.String()), "err": e}
 }
+
+// c12Recorded counts the stdout bytes recorded by this process; beyond c12RecordBudget (far above what the cases of the check
+// print on a sound tree) only heads are kept, so that a tree that prints without end cannot exhaust the memory of the check.
+var c12Recorded atomic.Int64
+
+const c12RecordBudget = 64 << 20
+
 
 func c12Flags(cfg map[string]any) (args, env []string) {
 	b := func(k string) bool { v, _ := cfg[k].(bool); return v }
@@ -236,6 +253,12 @@ func (r *c12Runner) run(c map[string]any) (rec c12M) {
 		ind, hasInd := c["yind"].(float64)
 		if hasInd {
 			yargs = append(yargs, "--indent", fmt.Sprint(int(ind)))
+		}
+		// further output options: none of them may change what --yaml-output writes
+		if fl, ok := c["yflags"].([]any); ok {
+			for _, f := range fl {
+				yargs = append(yargs, f.(string))
+			}
 		}
 		y := r.exec(dir, append(yargs, base...), nil, nil)
 		text := c12FromBytes(y["out"])
